@@ -63,6 +63,7 @@ fn alphabet_for(prop: &str) -> Vec<Op> {
             Op::Scan(8), // [a, b)
             Op::Walk(0, Move::Next),
             Op::Walk(0, Move::Prev),
+            Op::Walk(0, Move::ToEnd),
             Op::Walk(1, Move::Next),
             Op::Walk(0, Move::Seek(b"ab".to_vec())),
             Op::Flush,
